@@ -268,3 +268,24 @@ _extend("C15", "invariant-writer rule for z0 vectors; delegated-validation atomi
         "empties the object.")
 _extend("C06", "precision-range agreement of setters and loader", "Also decides that the precision setters and the NPD loader accept exactly the range "
                "the formatters' buffers are sized for.")
+
+
+# ---- R65-R74 ----------------------------------------------------------------------------------------------------------------
+_extend("C12", "errno-clobber typestate after allocator failure; libyaml status rule",
+        "Also decides that no unconditional errno store of another class follows a failed allocator call and that no fallible libyaml call has its "
+        "status discarded.")
+_extend("C11", "one-line message rule over all reporter format literals; one-sided success returns; fopen-name agreement",
+        "Also decides that no message literal contains a newline, that no public function reports success for a handle it bounded only from above, and "
+        "that a failed fopen is reported against the path that was opened.")
+_extend("C13", "output-establishment typestate of the recursive tree builders",
+        "Also decides that vnaproperty_copy's recursive worker writes its destination node on every successful path through the loop over the "
+        "children (empty maps and lists are created).")
+_extend("C09", "recursion-guard rule for walks over the libyaml document graph; signed-char shift rule; libyaml status rule",
+        "Also decides that the YAML importer bounds its recursion over aliased documents, that no file byte is shifted left as a signed char and that "
+        "parser initialisation failures are noticed.")
+_extend("C03", "recursion-guard and signed-char shift rules", "Also decides the two undefined-behaviour clauses above (unbounded recursion on `&a [*a]`, "
+               "left shift of a negative char).")
+_extend("C07", "default-pairing rule (macro provenance)", "Also decides that an untouched vnacal_t saves frequencies with the default named for frequencies "
+               "and data with the default named for data.")
+_extend("C06", "default-pairing rule (macro provenance)", "Also decides the same pairing for every precision member initialised from a named default.")
+_extend("C16", "one-sided success returns", "Also decides that vnacal_delete_parameter refuses negative handles instead of treating them like the predefined ones.")
